@@ -39,6 +39,7 @@ type Env struct {
 	// start a new phase (return true to continue the loop).
 	AtQuiescence func() bool
 
+	clock int64
 	// Data is the scenario's own state for this run.
 	Data any
 }
@@ -52,6 +53,18 @@ func (e *Env) Failf(clause, class, format string, args ...any) {
 	e.stop = true
 	e.S.Note("oracle", clause+": "+e.Viol.Msg)
 }
+
+// FailPost records a violation found after the bubble ended.
+func (e *Env) FailPost(clause, class, format string, args ...any) {
+	if e.Viol != nil {
+		return
+	}
+	e.Viol = &Violation{Property: e.Plan.Prop, Clause: clause, Stage: e.Plan.Stage, Class: class, Msg: fmt.Sprintf(format, args...)}
+}
+
+// Tick is a strictly increasing logical clock for invoke/return stamps of
+// recorded operations (only the running task calls it).
+func (e *Env) Tick() int64 { e.clock++; return e.clock }
 
 func (e *Env) Probe(name string) {
 	if !simrt.Free() {
